@@ -139,7 +139,12 @@ func (f *fake) GetRequirements(ctx context.Context, r *pb.GetRequirementsRequest
 	}
 	out := &pb.Requirements_NPM{Dependencies: pbDeps(v.D)}
 	for _, b := range v.Bundled {
-		out.Bundled = append(out.Bundled, &pb.Requirements_NPM_Bundle{Path: b.Path, Name: b.Name, Version: b.Version, Dependencies: pbDeps(b.D)})
+		pbb := &pb.Requirements_NPM_Bundle{Path: b.Path, Name: b.Name, Version: b.Version}
+		// a bundled package.json without dependencies comes without the message
+		if len(b.D.Deps)+len(b.D.Dev)+len(b.D.Opt)+len(b.D.Peer)+len(b.D.Bundle) > 0 {
+			pbb.Dependencies = pbDeps(b.D)
+		}
+		out.Bundled = append(out.Bundled, pbb)
 	}
 	return &pb.Requirements{Npm: out}, nil
 }
